@@ -1,3 +1,4 @@
+import QeepProps.C03
 import QeepProofs.ValueOps
 import QeepProofs.Real
 /-!
